@@ -128,6 +128,7 @@ def run(prop, tier, seed, a):
     cx.seed = seed
     tg = time.time()
     mod.obligations(cx)
+    cx.cache_coherence()          # memo caches met on the explored paths (no obligations if there are none)
     from .nativeio import flush_differential
     diff_err = None
     try:
